@@ -81,7 +81,14 @@ pub(crate) fn convert_list(node: SvgNode, aid: AId, state: &converter::State) ->
             if !(length.number as f32).is_finite() {
                 return None;
             }
-            num_list.push(convert_user_length(length, node, aid, state));
+
+            // The unit conversion can overflow as well: `1e38in`.
+            let n = convert_user_length(length, node, aid, state);
+            if !n.is_finite() {
+                return None;
+            }
+
+            num_list.push(n);
         }
 
         Some(num_list)
